@@ -245,3 +245,132 @@ split.
   by rewrite !nth_rcons hsz hk (ltnW hk); apply: hwf2; rewrite hsz.
 - by rewrite nth_rcons hsz ltnn eqxx.
 Qed.
+
+(* ------------------------------------------------------------------ the optimum of the last column *)
+Lemma final_ok k : n = k.+1 ->
+  exists v, [/\ dp_cost I = Cost (Some v), size (final_arg I k (Rec k)).2.1 = m k,
+                (final_arg I k (Rec k)).2.2 < nT I
+              & Vg k (final_arg I k (Rec k)).2.1 (final_arg I k (Rec k)).2.2 = Some v].
+Proof.
+move=> hn.
+have hcost : dp_cost I = Cost (ominl [seq ominl e.2 | e <- ColT k]).
+  by rewrite /dp_cost -/n hn; have := @dp_loop_tab k 0; rewrite !add0n; apply.
+pose cand := [seq ((x, t), tlook (ColT k) x t) | x <- gray (m k), t <- ts I].
+have h1 : (argmin ([::], 0) cand).1 = ominl [seq ominl e.2 | e <- ColT k].
+  rewrite argmin_val ominl_map big_allpairs_dep /= (perm_big _ (gray_perm (m k))) /=.
+  rewrite ColTE ominl_mktab -ColTE; apply: eq_big_seq => x; rewrite mem_bvs => /eqP hx.
+  by apply: eq_big_seq => t; rewrite mem_iota add0n /= => ht; exact: V_look.
+have [v hv] := opt_finite Hnc.
+move: hcost; rewrite (dp_cost_optimal_gen Hs Hl Hnc) hv => -[hmin].
+rewrite -hmin in h1; have := argmin_mem h1.
+have -> : (argmin ([::], 0) cand) = final_arg I k (Rec k) by [].
+case/allpairsP => -[x t] /= [hx ht [e1 e2]]; exists v; rewrite e1 /=.
+move: hx ht; rewrite mem_gray mem_iota add0n /= => /eqP hx ht.
+by split=> //; rewrite -V_look.
+Qed.
+
+(* ------------------------------------------------------------------ consistency of the reconstructed bipartition *)
+Lemma mask_nth_index (s : seq nat) (msk x : seq bool) r :
+  uniq s -> size msk = size s -> size x = size s -> r \in mask msk s ->
+  nth false (mask msk x) (index r (mask msk s)) = nth false x (index r s).
+Proof.
+elim: s msk x => [|a s IH] [|b msk] [|y x] //= /andP[ha hu] [hm] [hx].
+case: b => /=.
+  rewrite inE; case: (a =P r) => [_ _|/eqP ne] //=.
+  by rewrite eq_sym (negbTE ne) /= => hr; apply: IH.
+move=> hr; have hrs : r \in s by apply: mem_mask hr.
+have -> : (a == r) = false by apply/negbTE/negP => /eqP e; rewrite e hrs in ha.
+exact: IH.
+Qed.
+
+Lemma active_uniq c : uniq (active I c).
+Proof. by rewrite filter_uniq // iota_uniq. Qed.
+
+Section Consistent.
+Variable pth : seq (seq bool * nat).
+Hypothesis Hsz : size pth = n.
+Hypothesis Hwf : pwf pth.
+Let xs c := (nth d0 pth c).1.
+
+Lemma bit_step c r : c.+1 < n -> r \in active I c -> r \in active I c.+1 ->
+  nth false (xs c) (index r (active I c)) = nth false (xs c.+1) (index r (active I c.+1)).
+Proof.
+move=> hc h1 h2; case: Hwf => hw1 hw2.
+have hk : r \in kept I c.+1.
+  move: h1 h2; rewrite !mem_active /kept mem_filter mem_iota add0n /= ltnS.
+  by move=> /and3P[-> -> _] /and3P[_ _ ->].
+have hlink : mask (fmask I c) (xs c) = take (bw I c.+1) (xs c.+1) by apply: hw2; rewrite Hsz.
+have [hx1 _] : size (xs c) = m c /\ (nth d0 pth c).2 < nT I by apply: hw1; rewrite Hsz ltnW.
+rewrite (active_split Hs c.+1) index_cat hk.
+have hq : index r (kept I c.+1) < bw I c.+1 by rewrite bw_kept index_mem.
+rewrite -(nth_take false hq) -/(xs c.+1) -[take _ _]hlink -kept_mask.
+apply/esym/mask_nth_index; rewrite ?active_uniq ?size_map ?kept_mask //.
+Qed.
+
+Lemma bit_steps k c r : c + k < n -> r \in active I c -> r \in active I (c + k) ->
+  nth false (xs c) (index r (active I c)) = nth false (xs (c + k)) (index r (active I (c + k))).
+Proof.
+elim: k => [|k IH] hck h1 h2; first by rewrite addn0.
+have hmid : r \in active I (c + k).
+  move: h1 h2; rewrite !mem_active => /and3P[-> hf hl1] /and3P[_ _ hl2] /=.
+  by rewrite (leq_trans hf (leq_addr _ _)) /= (leq_trans _ hl2) // leq_add2l.
+rewrite IH //; last by apply: leq_ltn_trans hck; rewrite leq_add2l.
+by rewrite addnS; apply: bit_step => //; rewrite -addnS.
+Qed.
+
+Lemma restrict_witness c : c < n -> restrict (active I c) (witness_of I pth).1 = xs c.
+Proof.
+move=> hc; case: Hwf => hw1 _.
+have [hx _] : size (xs c) = m c /\ (nth d0 pth c).2 < nT I by apply: hw1; rewrite Hsz.
+apply: (@eq_from_nth _ false); first by rewrite size_map.
+move=> j; rewrite size_map => hj; rewrite (nth_map 0) //.
+set r := nth 0 (active I c) j.
+have hr : r \in active I c by apply: mem_nth.
+have /and3P[hrN hf hl] : [&& r < nreads I, r_first (rd I r) <= c & c <= r_last (rd I r)] by rewrite -mem_active.
+rewrite /witness_of /= (nth_map 0) ?size_iota // nth_iota // add0n.
+have hln := Hl hrN; set lr := r_last (rd I r) in hl hln *.
+have hlr : r \in active I lr by rewrite mem_active hrN leqnn (leq_trans hf hl).
+have := @bit_steps (lr - c) c r; rewrite subnKC // => /(_ hln hr hlr) <-.
+by rewrite /r index_uniq // active_uniq.
+Qed.
+
+Lemma cost_of_witness : cost_of I (witness_of I pth).1 (witness_of I pth).2 = pcost pth.
+Proof.
+rewrite /cost_of /pcost Hsz -/n; congr oaddl; apply/eq_in_map => c; rewrite mem_iota add0n /= => hc.
+rewrite /term /pterm restrict_witness // /witness_of /= (nth_map d0) ?Hsz //.
+by case: c hc => [|c] hc //; rewrite (nth_map d0) // Hsz ltnW.
+Qed.
+End Consistent.
+
+Theorem dp_witness_ok : 0 < n ->
+  exists beta tau v,
+    [/\ dp_witness I = Some (beta, tau), size beta = nreads I, size tau = n,
+        all (fun t => t < nT I) tau & cost_of I beta tau = Some v /\ dp_cost I = Cost (Some v)].
+Proof.
+case hn: n => [|k] // _.
+have [v [hcost hx ht hv]] := final_ok hn.
+have hk : k < n by rewrite hn.
+have [hsz hpc hwf _] := fp_ok hk hx ht hv.
+rewrite -hn in hsz.
+exists (witness_of I (fp k (final_arg I k (Rec k)).2.1 (final_arg I k (Rec k)).2.2)).1,
+       (witness_of I (fp k (final_arg I k (Rec k)).2.1 (final_arg I k (Rec k)).2.2)).2, v.
+split=> //.
+- by rewrite /dp_witness (dp_pathE hn).
+- by rewrite /witness_of /= size_map size_iota.
+- by rewrite /witness_of /= size_map hsz hn.
+- rewrite /witness_of /= all_map; apply/(all_nthP d0) => c; rewrite hsz => hc /=.
+  by case: hwf => hw1 _; case: (hw1 c); rewrite ?hsz.
+- by rewrite cost_of_witness.
+Qed.
+End Trace.
+
+Theorem dp_witness_achieves I : wf I -> no_conflict I ->
+  exists beta tau v,
+    [/\ dp_witness I = Some (beta, tau), size beta = nreads I, size tau = i_ncols I,
+        all (fun t => t < nT I) tau & cost_of I beta tau = Some v /\ dp_cost I = Cost (Some v)].
+Proof.
+move=> hwf hnc; case: (posnP (i_ncols I)) => [h0|hpos]; last first.
+  exact: (dp_witness_ok (wf_sorted hwf) (wf_last hwf) hnc hpos).
+exists [seq nth false (nth ([::], 0) [::] (r_last (rd I i))).1 (index i (active I (r_last (rd I i)))) | i <- iota 0 (nreads I)], [::], 0.
+by rewrite /dp_witness /dp_path /dp_cost /cost_of h0 /= size_map size_iota.
+Qed.
